@@ -822,19 +822,16 @@ type c01Replay struct {
 	Case c01Case `json:"case"`
 }
 
-func c01Configs(set string, tier string) (cfgs []c01Cfg, large bool) {
+func c01Configs(set string) (cfgs []c01Cfg, large bool) {
 	var pk [][2]int
 	var maxTx []uint32
 	switch set {
 	case "small":
-		if tier == "thorough" {
-			for _, p := range []int{1, 3, 4} {
-				for _, k := range []int{1, 2, 3} {
-					pk = append(pk, [2]int{p, k})
-				}
+		// the whole small product costs a few seconds, so both tiers run all of it
+		for _, p := range []int{1, 3, 4} {
+			for _, k := range []int{1, 2, 3} {
+				pk = append(pk, [2]int{p, k})
 			}
-		} else {
-			pk = [][2]int{{3, 2}, {1, 3}}
 		}
 		maxTx = []uint32{0}
 	case "large":
@@ -889,7 +886,7 @@ func c01Part(c *reg.Ctx) *reg.Result {
 		return res
 	}
 	set := c.Arg("set", "small")
-	cfgs, large := c01Configs(set, c.Tier)
+	cfgs, large := c01Configs(set)
 	lite := c.Quick()
 	var i, cases int64
 	expired := false
@@ -981,7 +978,7 @@ var c01Prop = &reg.Property{
 			}
 		} else {
 			jobs = []reg.Job{
-				{Part: "C01/product", Build: "plain", Args: map[string]string{"set": "small"}, Shards: 16, BudgetS: 80, Procs: 1, Label: "product P=3,K=2 and P=1,K=3"},
+				{Part: "C01/product", Build: "plain", Args: map[string]string{"set": "small"}, Shards: 16, BudgetS: 80, Procs: 1, Label: "product P{1,3,4} x K{1,2,3}"},
 				{Part: "C01/product", Build: "plain", Args: map[string]string{"set": "large"}, Shards: 8, BudgetS: 80, Procs: 1, Label: "product large P=32768 K=2 maxtx{default,65536} (boundary subset)"},
 				{Part: "C01/product", Build: "plain", Args: map[string]string{"set": "huge"}, Shards: 4, BudgetS: 80, Procs: 1, Label: "product huge P=200000 K=2 maxtx=1<<20 (boundary subset)"},
 			}
